@@ -32,6 +32,9 @@ enum Op {
     ReadSeq(u8, Pos),
     Iter(u8, Pos),
     Replace(u8),
+    /// header replacement on the *oldest* flushed record (a different read-ahead window than the newest
+    /// one once a large record lies in between)
+    ReplaceFirst(u8),
     ReadBytes(u8),
 }
 
@@ -39,15 +42,18 @@ enum Op {
 enum Pos {
     First,
     Last,
+    /// the third record (the one behind the large record of the multi-window prefix); the last one if
+    /// there are fewer
+    Third,
 }
 
 impl Op {
     fn is_reader(&self) -> bool {
-        matches!(self, Op::ReadRandom(..) | Op::ReadSeq(..) | Op::Iter(..) | Op::Replace(..) | Op::ReadBytes(..))
+        matches!(self, Op::ReadRandom(..) | Op::ReadSeq(..) | Op::Iter(..) | Op::Replace(..) | Op::ReplaceFirst(..) | Op::ReadBytes(..))
     }
     fn reader(&self) -> Option<u8> {
         match self {
-            Op::ReadRandom(r, _) | Op::ReadSeq(r, _) | Op::Iter(r, _) | Op::Replace(r) | Op::ReadBytes(r) => Some(*r),
+            Op::ReadRandom(r, _) | Op::ReadSeq(r, _) | Op::Iter(r, _) | Op::Replace(r) | Op::ReplaceFirst(r) | Op::ReadBytes(r) => Some(*r),
             _ => None,
         }
     }
@@ -55,7 +61,9 @@ impl Op {
         format!("{self:?}")
     }
     fn parse(s: &str) -> Op {
-        let all = alphabet(1, true);
+        let mut all = alphabet(1, true);
+        all.extend(alphabet_windows());
+        all.extend(WINDOWS_PREFIX);
         all.into_iter().find(|o| o.name() == s).unwrap_or_else(|| vcommon::machinery_fail(&format!("unknown op {s}")))
     }
 }
@@ -76,6 +84,25 @@ fn alphabet_mini(h: usize) -> Vec<Op> {
         v.push(Op::Replace(0));
     }
     v
+}
+
+/// The multi-window family starts from a non-initial state: a small record, a 70 KiB record (larger than
+/// the 64 KiB read-ahead window), two small records behind it, all flushed.  The oldest and the newest
+/// records then live in different read-ahead windows.
+const WINDOWS_PREFIX: [Op; 5] = [Op::AppendS, Op::AppendL, Op::AppendS, Op::AppendS, Op::Sync];
+
+fn alphabet_windows() -> Vec<Op> {
+    vec![
+        Op::Iter(0, Pos::Third),
+        Op::SetLenLast,
+        Op::AppendS,
+        Op::Sync,
+        Op::ReplaceFirst(0),
+        Op::ReadSeq(0, Pos::Last),
+        Op::Replace(0),
+        Op::ReadSeq(0, Pos::First),
+        Op::Iter(0, Pos::First),
+    ]
 }
 
 /// two long-lived readers and header replacement (H = 1 only)
@@ -253,6 +280,7 @@ fn execute<const H: usize>(ops: &[Op], path: &Path, states: Option<&Distinct>, t
                 let target = match p {
                     Pos::First => m.recs.first(),
                     Pos::Last => m.recs.last(),
+                    Pos::Third => m.recs.get(2).or(m.recs.last()),
                 };
                 let off = target.map(|t| t.off).unwrap_or(m.write_off);
                 let res = catch(|| rd.read_record(off, hint).map(|rec| (rec.header.to_vec(), rec.data.to_vec(), rec.len, rec.offset)));
@@ -283,6 +311,7 @@ fn execute<const H: usize>(ops: &[Op], path: &Path, states: Option<&Distinct>, t
                 let first_idx = match p {
                     Pos::First => 0usize,
                     Pos::Last => m.recs.len().saturating_sub(1),
+                    Pos::Third => 2usize.min(m.recs.len().saturating_sub(1)),
                 };
                 let off = m.recs.get(first_idx).map(|t| t.off).unwrap_or(m.write_off);
                 let expect: Vec<&MRec> = m.recs[first_idx.min(m.recs.len())..].iter().take_while(|t| t.off + t.len as u64 <= m.flushed).collect();
@@ -320,10 +349,14 @@ fn execute<const H: usize>(ops: &[Op], path: &Path, states: Option<&Distinct>, t
                     }
                 }
             }
-            Op::Replace(r) => {
+            Op::Replace(r) | Op::ReplaceFirst(r) => {
                 let rd = readers[r as usize].as_mut().expect("reader exists");
-                // newest flushed record
-                let idx = m.recs.iter().rposition(|t| t.off + t.len as u64 <= m.flushed);
+                // newest (oldest) flushed record
+                let idx = if matches!(op, Op::ReplaceFirst(_)) {
+                    m.recs.iter().position(|t| t.off + t.len as u64 <= m.flushed)
+                } else {
+                    m.recs.iter().rposition(|t| t.off + t.len as u64 <= m.flushed)
+                };
                 m.replaced += 1;
                 let mut nh = [0u8; H];
                 for (i, b) in nh.iter_mut().enumerate() {
@@ -391,7 +424,10 @@ fn diagnose(ops: &[Op], step: usize) -> &'static str {
         }
     }
     if let Some(r) = r {
-        let other_replace = prefix.iter().any(|o| matches!(o, Op::Replace(x) if *x != r));
+        let other_replace = prefix.iter().any(|o| matches!(o, Op::Replace(x) | Op::ReplaceFirst(x) if *x != r));
+        if prefix.iter().any(|o| matches!(o, Op::ReplaceFirst(_))) && prefix.iter().any(|o| matches!(o, Op::AppendL)) {
+            return "replace-in-other-window";
+        }
         let seq_before = prefix.iter().any(|o| matches!(o, Op::ReadSeq(x, _) | Op::Iter(x, _) if *x == r));
         if other_replace && seq_before {
             return "cross-reader-replace";
@@ -423,15 +459,14 @@ fn valid(seq: &[Op]) -> bool {
     true
 }
 
-fn run_h<const H: usize>(
-    ctx: &Ctx,
-    dir: &Path,
-    alpha: &[Op],
-    depth: usize,
-    label: &str,
-    cap: Duration,
-    stats: &Stats,
-) -> bool {
+fn run_h<const H: usize>(ctx: &Ctx, dir: &Path, alpha: &[Op], depth: usize, label: &str, cap: Duration, stats: &Stats) -> bool {
+    run_hp::<H>(ctx, dir, &[], alpha, depth, label, cap, stats)
+}
+
+/// Like `run_h`, but every enumerated sequence is executed behind the fixed `prefix` (a non-initial
+/// start state).
+#[allow(clippy::too_many_arguments)]
+fn run_hp<const H: usize>(ctx: &Ctx, dir: &Path, prefix: &[Op], alpha: &[Op], depth: usize, label: &str, cap: Duration, stats: &Stats) -> bool {
     // enumerate all sequences of exactly `d` ops for d = 1..=depth whose last op is a reader op (shorter
     // sequences and sequences ending in a writer op are prefixes of those and are checked step by step).
     let n = alpha.len();
@@ -467,6 +502,7 @@ fn run_h<const H: usize>(
                     continue;
                 }
                 stats.sequences.fetch_add(1, Ordering::Relaxed);
+                let seq: Vec<Op> = if prefix.is_empty() { seq.clone() } else { prefix.iter().chain(seq.iter()).copied().collect() };
                 if let Some(f) = execute::<H>(&seq, &path, Some(&stats.states), Some(&stats.transitions)) {
                     let ops = &seq[..=f.step];
                     // determinism: replay the minimal prefix twice
@@ -495,7 +531,7 @@ fn run_h<const H: usize>(
             return false;
         }
     }
-    stats.completed_depths.lock().unwrap().push(format!("H={H}/{label}: complete to depth {depth} ({} symbols)", n));
+    stats.completed_depths.lock().unwrap().push(format!("H={H}/{label}: complete to depth {depth} ({} symbols{})", n, if prefix.is_empty() { String::new() } else { format!(", behind the {}-operation prefix {:?}", prefix.len(), prefix) }));
     true
 }
 
@@ -550,12 +586,14 @@ pub fn run(args: Args) {
         exhaustive &= run_h::<1>(&ctx, &dir, &alphabet(1, false), 5, "core", cap, &stats);
         exhaustive &= run_h::<1>(&ctx, &dir, &alphabet(1, true), 5, "full", cap, &stats);
         exhaustive &= run_h::<0>(&ctx, &dir, &alphabet(0, true), 4, "full", cap, &stats);
+        exhaustive &= run_hp::<1>(&ctx, &dir, &WINDOWS_PREFIX, &alphabet_windows(), 7, "multi-window", cap, &stats);
     } else {
         exhaustive &= run_h::<1>(&ctx, &dir, &alphabet_mini(1), 6, "mini", cap, &stats);
         exhaustive &= run_h::<0>(&ctx, &dir, &alphabet_mini(0), 5, "mini", cap, &stats);
         exhaustive &= run_h::<1>(&ctx, &dir, &alphabet_two(), 6, "two-readers", cap, &stats);
         exhaustive &= run_h::<1>(&ctx, &dir, &alphabet(1, false), 4, "core", cap, &stats);
         exhaustive &= run_h::<1>(&ctx, &dir, &alphabet(1, true), 3, "full", cap, &stats);
+        exhaustive &= run_hp::<1>(&ctx, &dir, &WINDOWS_PREFIX, &alphabet_windows(), 6, "multi-window", cap, &stats);
     }
     let _ = std::fs::remove_dir_all(&dir);
     let seqs = stats.sequences.load(Ordering::Relaxed);
@@ -573,6 +611,8 @@ pub fn run(args: Args) {
             "alphabet_core_H1": alphabet(1, false).iter().map(|o| o.name()).collect::<Vec<_>>(),
             "alphabet_mini_H1": alphabet_mini(1).iter().map(|o| o.name()).collect::<Vec<_>>(),
             "alphabet_two_readers_H1": alphabet_two().iter().map(|o| o.name()).collect::<Vec<_>>(),
+            "alphabet_multi_window_H1": alphabet_windows().iter().map(|o| o.name()).collect::<Vec<_>>(),
+            "multi_window_prefix": WINDOWS_PREFIX.iter().map(|o| o.name()).collect::<Vec<_>>(),
             "rule": "all operation sequences up to the stated depth whose last op is a reader op (all other sequences are prefixes of those and are checked step by step); \
                      states = distinct reference-model states reached; every sequence is executed on the real Writer/Reader, so traces_validated = sequences",
         }),
